@@ -393,7 +393,13 @@ func (t *taskTrace) Do(options ...DoOption) {
 	}
 
 	response := newDoOption(options...)
-	t.forward <- *response
+	// never block: the first answer occupies the single buffer slot (and is
+	// the only one that takes effect); a further concurrent answer that got
+	// past the done check above has nobody left to receive it
+	select {
+	case t.forward <- *response:
+	default:
+	}
 }
 
 func (t *taskTrace) process() {
